@@ -42,6 +42,8 @@ if "determinism.sketch_answers_strings" not in CATALOGUE:
         def handle_event(self, event):
             item = event.context["metadata"]["item"]
             self.fed += 1
+            self.items = getattr(self, "items", [])
+            self.items.append(item)
             for s in self.sinks:
                 s.add(item)
             return None
@@ -78,7 +80,30 @@ if "determinism.sketch_answers_strings" not in CATALOGUE:
                 "hll": hll.cardinality(),
                 "hll_fine": hll_fine.cardinality(),
                 "topk": [[_canon(t.item), t.count, t.error] for t in topk.top()],
+                "merged": merged(),
             }
+
+        def merged():
+            # round 8: the two halves of the string items seen so far in two sketches of each kind, merged; with k=3 the
+            # receiving TopK is full and the other one tracks items it does not (C03-r8-1: TopK.merge walked a *set* of
+            # str keys, so which counter a newcomer evicted, and with it counts and errors, followed PYTHONHASHSEED)
+            fed = [x for x in getattr(feeder, "items", []) if isinstance(x, (str, bytes))]
+            half = len(fed) // 2
+            out = {}
+            for name, mk in (("topk", lambda: TopK(k=3)), ("topk5", lambda: TopK(k=5)), ("cms", lambda: CountMinSketch(width=3, depth=2, seed=seed)), ("hll", lambda: HyperLogLog(precision=4, seed=seed))):
+                a, b = mk(), mk()
+                for x in fed[:half]:
+                    a.add(x)
+                for x in fed[half:]:
+                    b.add(x)
+                a.merge(b)
+                if name.startswith("topk"):
+                    out[name] = [[_canon(t.item), t.count, t.error] for t in a.top()] + [a.max_error()]
+                elif name == "cms":
+                    out[name] = [a.estimate(x) for x in items[:12]]
+                else:
+                    out[name] = a.cardinality()
+            return out
 
         return Scenario(sim, {"feeder": feeder, "sketches": Answers(answers)}, "determinism", True, 220)
 
